@@ -95,6 +95,20 @@ def cross_check(sample):
     return out
 
 
+def _explorer_found(code: int, out: str) -> bool:
+    """an explorer reports a violation by exit 1 AND a JSON document saying so; a crash of the harness (a traceback, exit 1
+    from the interpreter, exit 2) is never a verdict"""
+    if code != 1:
+        return False
+    for ln in reversed(out.strip().splitlines()):
+        if ln.startswith("{"):
+            try:
+                return bool(json.loads(ln).get("violated"))
+            except Exception:
+                return False
+    return False
+
+
 def _inputs_key(tier: str, seed: int) -> str:
     """hash of EVERYTHING a unit's result depends on: the current sources of the package under verification, the verifier, the
     specifications, the baseline (alpha-renaming), the interpreter's library files that are verified from source, the solver
@@ -328,7 +342,7 @@ def main() -> int:
         if not violations and re.fullmatch(r"C(0[1-9]|1[0-5])", prop):
             code, out = driver.run_native("replay/random_histories.py", [prop, str(seed), "8000"], timeout=600, full=True)
             bounded_fallback["random_histories"] = {"exit": code, "bound": "8000 histories, <=14 operations each, pools of size 1/2/3/unbounded", "output": out[-600:]}
-            if code == 1:
+            if _explorer_found(code, out):
                 rp = os.path.join(OUT, "replays", f"{prop}-random-history-{seed}.json")
                 try:
                     found = json.loads(out[out.index("{"):])
@@ -346,7 +360,7 @@ def main() -> int:
         if not violations and prop in ("C16", "C17", "C18"):
             code, out = driver.run_native("replay/random_commands.py", [prop, str(seed), "600"], timeout=600, full=True)
             bounded_fallback["random_commands"] = {"exit": code, "bound": "600 classes of <=6 members with <=4 parameters, <=17 lines per session, optional second session", "output": out[-600:]}
-            if code == 1:
+            if _explorer_found(code, out):
                 rp = os.path.join(OUT, "replays", f"{prop}-random-commands-{seed}.json")
                 try:
                     found = json.loads(out[out.index("{"):])
@@ -370,12 +384,12 @@ def main() -> int:
         if re.fullmatch(r"C(0[1-9]|1[0-5])", prop):
             code, out = driver.run_native("replay/random_histories.py", [prop, str(seed), "20000"], timeout=900, full=True)
             extras["bounded_monitor"]["random_histories"] = {"exit": code, "bound": "20000 histories, <=14 operations each", "output": out[-600:]}
-            if code == 1:
+            if _explorer_found(code, out):
                 extras["bounded_monitor"]["violations"] = extras["bounded_monitor"].get("violations", 0) + 1
         if prop in ("C16", "C17", "C18"):
             code, out = driver.run_native("replay/random_commands.py", [prop, str(seed), "4000"], timeout=900, full=True)
             extras["bounded_monitor"]["random_commands"] = {"exit": code, "bound": "4000 classes, <=17 lines per session", "output": out[-600:]}
-            if code == 1:
+            if _explorer_found(code, out):
                 extras["bounded_monitor"]["violations"] = extras["bounded_monitor"].get("violations", 0) + 1
         extras["assumed_contract_monitor"] = driver.assumed_contract_monitor()
     # sensitivity canaries (thorough tier): independently seeded property-breaking changes of this property (seeded/<id>*/) are
